@@ -1007,6 +1007,49 @@ Qed.
 
 End WithCC.
 
+(* ------------------------------------------------------------------ the guard, in its two parts *)
+Lemma guard_split : forall tr b rd rf,
+  c04_guard_scan tr b rd rf =
+  c04_tol_scan tr (Z.of_nat (length rd + length rf)) && c04_order_scan tr b rd rf.
+Proof.
+  induction tr as [|st r IH]; intros b rd rf; [reflexivity|].
+  cbn [c04_guard_scan c04_tol_scan c04_order_scan].
+  destruct (fs_event st); try apply IH.
+  destruct (carries_seq h plen); [|apply IH].
+  rewrite !IH. cbn [length].
+  replace (Z.of_nat (length rd + S (length rf))) with (Z.of_nat (length rd + length rf) + 1) by lia.
+  replace (Z.of_nat (S (length rd) + length rf)) with (Z.of_nat (length rd + length rf) + 1) by lia.
+  generalize (forallb (fun d => c04_pos b d <? c04_pos b (ch_seq h)) rd).
+  generalize (forallb (fun f => c04_pos b (ch_seq h) <? c04_pos b f) rf).
+  generalize (c04_order_scan r b rd (ch_seq h :: rf)). generalize (c04_order_scan r b (ch_seq h :: rd) rf).
+  generalize (c04_tol_scan r (Z.of_nat (length rd + length rf) + 1)).
+  generalize (u16_ok (ch_seq h)). generalize (Z.of_nat (length rd + length rf) <? WRAP_TOLERANCE).
+  generalize (ptype_eqb (ch_type h) ST_FIN).
+  intros [] [] [] [] [] [] [] []; reflexivity.
+Qed.
+
+Lemma peer_ok_split cfg tr : c04_peer_ok cfg tr = c04_tol_ok cfg tr && negb (c04_d22_class cfg tr).
+Proof.
+  unfold c04_peer_ok, c04_tol_ok, c04_d22_class. destruct tr as [|st r]; [reflexivity|].
+  rewrite guard_split. cbn [length Nat.add Z.of_nat]. rewrite negb_involutive. reflexivity.
+Qed.
+
+Section Or22.
+Context {CC : Type} (cci : cc_iface CC).
+
+Theorem c04_vsock_ack_or_d22_trace : forall mk c cfg (s0 : vsock CC) ops,
+  C10_Pred.vconfig_ok c = true -> vsock_new cci mk c = Some s0 ->
+  c04_vsock_ack_or_d22 cfg (ftrace cci s0 ops) = true.
+Proof.
+  intros mk c cfg s0 ops Hc Hn. unfold c04_vsock_ack_or_d22.
+  destruct (c04_tol_ok cfg (ftrace cci s0 ops)) eqn:Ht; [|reflexivity].
+  destruct (c04_d22_class cfg (ftrace cci s0 ops)) eqn:Hd; [apply orb_true_r|].
+  rewrite orb_false_r.
+  pose proof (c04_vsock_ack_guarded_trace cci mk c cfg s0 ops Hc Hn) as G. unfold c04_vsock_ack_guarded in G.
+  rewrite peer_ok_split, Ht, Hd in G. exact G.
+Qed.
+End Or22.
+
 (* ================================================================== witnesses *)
 Definition c04_cfg (rseq : Z) : vconfig :=
   {| vc_incoming := false; vc_ipv4 := true; vc_link_mtu := 1500; vc_rx_buf := 1048576;
@@ -1040,6 +1083,7 @@ Definition c04_after_fin_b : bool :=
   let tr := c04_run cfg c04_after_fin_ops in
   negb (c04_vsock_ack_ok cfg tr) && C10_Pred.vconfig_ok cfg &&
   negb (c04_peer_ok cfg tr) && c04_vsock_ack_guarded cfg tr &&
+  c04_tol_ok cfg tr && c04_d22_class cfg tr &&
   match rev tr with
   | st :: _ => match fs_result st with
                | FrPoll PollReadyOk [p] _ _ => (ch_ack (fq_hdr p) =? 3) && (f_last_consumed (fs_post st) =? 3)
